@@ -53,6 +53,7 @@ def gen_step(rng, n, mutable):
         if rng.random() < 0.35 and toks: toks[rng.randrange(len(toks))] = {'k': rng.choice(['bits', 'bin', 'uint', 'hex', 'bytes'])}
         if rng.random() < 0.08: toks.insert(rng.randrange(len(toks) + 1), {'k': 'bin'})
         st['toks'] = toks
+        if rng.random() < 0.3: st['kwspell'] = True          # the lengths are passed as keyword arguments n0, n1, ... (same names every time, other values)
     elif op == 'readto': st.update(pat=rand_bits(rng, rng.choice([0, 1, 2, 3, 8])), ba=rng.choice([None, False, True]))
     elif op == 'setpos': st['p'] = rng.choice([0, n, n + 1, -1, rng.randrange(0, n + 1)])
     elif op == 'setbytepos': st['p'] = rng.choice([0, 1, n // 8, n // 8 + 1, -1])
@@ -81,7 +82,7 @@ def gen_cases(rng, tier):
         n = rng.choice([0, 1, 7, 8, 9, 16, 24, 31, 32, 33, 40, 64]) if rng.random() < 0.8 else rng.randrange(0, 150)
         cls = rng.choice(['ConstBitStream', 'BitStream', 'BitStream'])
         bits = rand_bits(rng, n)
-        yield {'op': 'history', 'cls': cls, 'bits': bits, 'pos': rng.choice([0, 0, n, rng.randrange(0, n + 1)]),
+        yield {'op': 'history', 'cls': cls, 'bits': bits, 'pos': rng.choice([0, 0, n, rng.randrange(0, n + 1)]), 'opt_ba': rng.random() < 0.25,
                'steps': [gen_step(rng, max(n, 4), cls == 'BitStream') for _ in range(rng.randrange(3, 26))]}
 
     # exp-Golomb codes cut short by one to three bits at the end of the data, met by every reading method (alone and after other tokens)
@@ -139,7 +140,15 @@ def apply_impl(s, st):
     if op == 'peek': return canon_val(st['tok'], s.peek(fmt_of(st['tok'])))
     if op in ('readlist', 'peeklist'):
         toks = [t for t in st['toks']]
-        vals = (s.readlist if op == 'readlist' else s.peeklist)([fmt_of(t) for t in toks])
+        fn = s.readlist if op == 'readlist' else s.peeklist
+        if st.get('kwspell') and all(isinstance(t, dict) for t in toks) and toks:
+            parts, kw = [], {}
+            for i, t in enumerate(toks):
+                if 'n' in t and 'k' in t: parts.append(f"{t['k']}:n{i}"); kw[f'n{i}'] = t['n']
+                else: parts.append(str(fmt_of(t)))
+            vals = fn(', '.join(parts), **kw)
+        else:
+            vals = fn([fmt_of(t) for t in toks])
         nonpad = [t for t in toks if not (isinstance(t, dict) and t.get('k') == 'pad')]
         return [canon_val(t, v) for t, v in zip(nonpad, vals)] + ([['extra']] if len(vals) != len(nonpad) else [])
     if op == 'readto':
@@ -204,7 +213,9 @@ def apply_impl(s, st):
     raise AssertionError(op)
 
 def run_impl(c):
+    import bitstring
     s = build(c['cls'], c['bits'], 'bin', c['pos'])
+    bitstring.options.bytealigned = bool(c.get('opt_ba'))      # reset by the driver
     trace = []
     for st in c['steps']:
         before = [s.bin, s.pos]
@@ -330,7 +341,7 @@ def ref_step(cls, d, pos, st):
                 d2 = R.setitem_int(d, key, st['val']['int'])
             return ok(None, d2, pos if len(d2) == len(d) else 0)
         if op == 'replace':
-            d2, n = R.replace(d, st['old'], st['new'], None, None, st['count'], False)
+            d2, n = R.replace(d, st['old'], st['new'], None, None, st['count'], bool(st.get('ba_eff')))
             return ok(n, d2, pos if len(d2) == len(d) else 0)
         if op == 'clear': return ok(None, '', 0)
         if op == 'imul':
@@ -381,8 +392,15 @@ def ref_step(cls, d, pos, st):
         return err(*getattr(e, 'kinds', {e.kind}))
     raise AssertionError(op)
 
+def eff(c, st):
+    """the step with `bytealigned` resolved: an omitted argument means options.bytealigned (set for the whole history)"""
+    if 'ba' in st and st['ba'] is None and c.get('opt_ba'): return dict(st, ba=True)
+    if st.get('op') == 'replace' and c.get('opt_ba'): return dict(st, ba_eff=True)
+    return st
+
 def oracle(c, obs):
     for st, (before, r, after) in zip(c['steps'], obs[1]):
+        st = eff(c, st)
         d, pos = before
         if not 0 <= after[1] <= len(after[0]): return f"{c['cls']}: pos={after[1]} outside [0, {len(after[0])}] after {st} (before: pos={pos}, {len(d)} bits)"
         if after[2] != len(after[0]): return f"len mismatch after {st}"
@@ -477,7 +495,7 @@ def coq_step(cls, st, before, r, after):
         return f"chk unit_eqb (st_delitem_int {S} {cz(k)}) {A} {unit}"
     if op == 'replace':
         exp = f"(Ok {cz(r[1])})" if r[0] == 'ok' else cerr(r)
-        return f"chk Z.eqb (st_replace {S} {cbits(st['old'])} {cbits(st['new'])} None None {cob(st['count'])} false) {A} {exp}"
+        return f"chk Z.eqb (st_replace {S} {cbits(st['old'])} {cbits(st['new'])} None None {cob(st['count'])} {cbool(bool(st.get('ba_eff')))}) {A} {exp}"
     if op == 'clear': return f"chk unit_eqb (st_clear {S}) {A} {unit}"
     if op == 'imul': return f"chk unit_eqb (st_imul {S} {cz(st['n'])}) {A} {unit}"
     return None
@@ -485,7 +503,7 @@ def coq_step(cls, st, before, r, after):
 def coq_check(c, obs):
     terms = []
     for st, (before, r, after) in zip(c['steps'], obs[1]):
-        t = coq_step(c['cls'], st, before, r, after)
+        t = coq_step(c['cls'], eff(c, st), before, r, after)
         if t is not None: terms.append('(' + t + ')')
     return ' && '.join(terms) if terms else None
 
